@@ -382,7 +382,13 @@ def T4(m, R):
         l, r = canon(lg.test.left, sal), canon(lg.test.comparators[0], sal)
         want_l, want_r = 'len(%s)' % seq, 'len(self.setup_seq)'
         regions = cmp_regions(lg.test.ops[0], swapped=(l == want_r and r == want_l))
-        if {l, r} != {want_l, want_r}:
+        other_ = r if l == want_l else l if r == want_l else None
+        if {l, r} != {want_l, want_r} and other_ is not None and ('total_seq_count' in other_ or 'num_args' in other_) and \
+                cmp_regions(lg.test.ops[0], swapped=(r == want_l)) == {'<'}:
+            R.viol(sf, lg, 'the guard rejects every sequence shorter than %s, i.e. setup + arguments: a sequence that does start with the setup sequence but is cut short '
+                           '([38, 5], [48, 2, 1, 2]) is reported as not starting with the function -- the parser then takes 38 for a colour code without setup, skips it and '
+                           'reads the rest as single codes' % other_, construct='length guard')
+        elif {l, r} != {want_l, want_r}:
             R.undecided(sf, lg, 'length guard compares %s with %s' % (l, r), construct='length guard')
         else:
             R.check(regions == {'<'}, sf, lg, 'guard rejects exactly len(seq) < len(setup_seq)',
